@@ -54,6 +54,36 @@ class SimEntropy:
         return [int.from_bytes(b[4 * i : 4 * i + 4], "little") for i in range(n)]
 
 
+RNG_TYPES = (np.random.Generator, np.random.RandomState, np.random.BitGenerator, pyrandom.Random)
+
+
+def scan_rng_bindings(prefixes=("atomica",)):
+    """
+    Module-level (and class-level) names of the library under test that are bound to random generator objects.
+    A real fork duplicates them with the rest of the address space; the simulator duplicates exactly these
+    (bindings AND objects, aliasing preserved) per simulated process.
+    """
+    import sys
+
+    out = []
+    glob = np.random.mtrand._rand
+    for modname, mod in list(sys.modules.items()):
+        if mod is None or not any(modname == p or modname.startswith(p + ".") for p in prefixes):
+            continue
+        try:
+            items = list(vars(mod).items())
+        except TypeError:
+            continue
+        for k, v in items:
+            if isinstance(v, RNG_TYPES) and v is not glob:
+                out.append((mod, k))
+            elif isinstance(v, type) and getattr(v, "__module__", None) == modname:
+                for ck, cv in list(vars(v).items()):
+                    if isinstance(cv, RNG_TYPES) and cv is not glob:
+                        out.append((v, ck))
+    return out
+
+
 class SimProc:
     def __init__(self, world, pid, identity=()):
         self.world = world
@@ -63,6 +93,7 @@ class SimProc:
         self.np_state = None
         self.py_state = None
         self.log_level = None
+        self.rng_objs = {}  # (holder, attribute name) -> generator object owned by this process
         self.tasks_run = 0
 
     def capture(self):
@@ -71,6 +102,8 @@ class SimProc:
         self.np_state = np.random.mtrand._rand.get_state()
         self.py_state = pyrandom.getstate()
         self.log_level = at.logger.level
+        # while this process is the current one, the library's generator bindings ARE its objects
+        self.rng_objs = {(h, k): getattr(h, k) for h, k in scan_rng_bindings() if hasattr(h, k)}
 
     def install(self):
         import atomica as at
@@ -78,8 +111,12 @@ class SimProc:
         np.random.mtrand._rand.set_state(self.np_state)
         pyrandom.setstate(self.py_state)
         at.logger.setLevel(self.log_level)
+        for (h, k), obj in self.rng_objs.items():
+            setattr(h, k, obj)
 
     def fork(self, pid, identity):
+        import copy
+
         child = SimProc(self.world, pid, identity)
         # fork happens "now": the child gets the parent's current live state
         if self.world.current is self:
@@ -87,6 +124,10 @@ class SimProc:
         child.np_state = self.np_state
         child.py_state = self.py_state
         child.log_level = self.log_level
+        memo = {}  # one memo for all objects: names that alias one generator keep aliasing one (copied) generator
+        child.rng_objs = {b: copy.deepcopy(obj, memo) for b, obj in self.rng_objs.items()}
+        if child.rng_objs:
+            self.world.stats["library_generators_forked"] += len(child.rng_objs)
         return child
 
     def __enter__(self):
